@@ -1289,7 +1289,7 @@ fn cmd_run(world: &World, args: &Args) -> i32 {
         let _ = std::fs::remove_file(&evp);
         // informational digest comparison on a small prefix of the same histories
         let cmp_n = 500.min(*n);
-        let codec_only = name == "minimal";
+        let codec_only = name == "minimal" || name == "std-noserde";
         exec::CODEC_ONLY.store(codec_only, std::sync::atomic::Ordering::Relaxed);
         let mine = digests_of(world, args.seed, cmp_n, args.workers, Tier::Quick);
         exec::CODEC_ONLY.store(false, std::sync::atomic::Ordering::Relaxed);
